@@ -35,7 +35,7 @@ ANCHORS = [
 ]
 RULE = (
     "full product: estimator menu (26 panel-transformer configurations incl. 2 row transformers, "
-    "8 classifiers, TSF regressor) x supported column counts (1, and 2 where multivariate is "
+    "9 classifiers (incl. IndividualTDE, 1 and 2 columns), TSF regressor) x supported column counts (1, and 2 where multivariate is "
     "supported) x value family (quick: 2 of 3 families chosen by VERIF_SEED; thorough: all 3, a "
     "second classifier parameterisation and a second apply set made of training instances) x "
     "container at fit {nested, numpy} x container at apply {nested, numpy} x nested column naming "
@@ -59,7 +59,7 @@ ASSUMPTIONS = [
     "not a function of the instance at all)",
     "excluded, not runnable here (third-party drift / missing binaries, unrelated to the "
     "property): ComposableTimeSeriesForestClassifier/Regressor (abstract under scikit-learn "
-    "1.7), TemporalDictionaryEnsemble/IndividualTDE and WEASEL (scikit-learn parameter "
+    "1.7), TemporalDictionaryEnsemble and WEASEL (scikit-learn parameter "
     "validation), KNN/DTW/ElasticEnsemble/ProximityForest/ShapeDTW (Cython distances), shapelet "
     "transform/STC/MrSEQL, ROCKET family (pure-Python numba stub far too slow), "
     "TSFresh*/Catch22* (soft dependencies), sktime ColumnTransformer (scikit-learn 1.7 "
